@@ -4,8 +4,6 @@
 pub struct PV { pub hv: int, pub pending: Option<PreflateTokenReference>, pub count: u32, pub pos: int }
 // A-DET: the unverified prediction machinery is a function of (chain state, plaintext, position, parameters)
 pub uninterp spec fn sp_update(hv: int, len: u32, e: Env, pos: int) -> int;
-/// A-DET: the lazy-match probe one byte ahead (hash_chain_holder.rs match_token_offset::<1>; not verified)
-pub uninterp spec fn sp_match1(hv: int, prev_len: u32, max_depth: u32, e: Env, pos: int) -> MatchResult;
 /// TokenPredictor::predict_token as a function (proved in U17 against the real body; formerly assumption A-PRED):
 /// the token predicted at pos and the pending lazy match afterwards. FROZEN FORMAT (C04): every rule in here -- the
 /// 3-byte-match distance limit, the lazy rule with max_lazy / good_length, the quartered search depth of zlib, the
@@ -41,7 +39,6 @@ pub open spec fn sp_predict(hv: int, pending: Option<PreflateTokenReference>, e:
 pub open spec fn pv_pend_ok(v: PV, e: Env) -> bool {
     v.pending matches Some(p) ==> !p.irregular258 && p.dist >= 1 && v.pos > 0 && v.pos + ref_len(p) <= e.text.len()
 }
-pub uninterp spec fn sp_match0(hv: int, prev_len: u32, max_depth: u32, e: Env, pos: int) -> MatchResult;
 
 pub open spec fn m_lpw() -> int { CodecMisprediction::LiteralPredictionWrong as int }
 pub open spec fn m_rpw() -> int { CodecMisprediction::ReferencePredictionWrong as int }
